@@ -211,3 +211,14 @@ check('C18',
       '2.0 and 3.1 symbol tables x every arity up to 3 x every tuple of a 16/19-value argument alphabet: each successful result matches the declared return type.',
       'reference mc/models/seqtypes.py; nodes are untyped; maps and arrays against typed function tests are not judged; calls that raise are not judged',
       'DESIGN.md section 3 C18')
+check('C20',
+      'bounded-exhaustive enumeration of generated schemas, valid instances and path expressions, evaluated with and without the schema',
+      '94 schemas generated from a grammar (root with a repeated child whose type is each of 40 built-in atomic types, as element and as attribute; xs:list of '
+      'xs:int / xs:NMTOKEN; xs:union; restrictions by enumeration and range; simple-content extension with a typed attribute; nillable with xsi:nil; default and '
+      'fixed values; xsi:type substitution; attribute default; two typed children), XSD 1.0 and 1.1 (xmlschema.XMLSchema10/11), xml.etree and lxml trees; every '
+      'instance is validated by xmlschema. For every typed element and attribute: data() is a single value of the datatype class of the declared type, '
+      'instance of xs:T, its string is the canonical form of the reference model and equals what xmlschema decodes; instance of element(*, T) / attribute(*, T) '
+      'holds for the declared type and every base type and fails for an unrelated type; + 1 and = xs:T(literal) use the typed value; list items and nilled '
+      'elements. 40 structural paths select the same nodes with and without the schema.',
+      'reference mc/models/atomic.py, mc/models/seqtypes.py and the xmlschema decoder; QName / IDREF / ENTITY typed content and xsi:type on xml.etree (no prefix map) are outside the generated space',
+      'DESIGN.md section 3 C20')
